@@ -44,6 +44,7 @@ type RespEntry struct {
 type RawView struct {
 	Entries       []RespEntry
 	Blocks        []map[cid.Cid][]byte // per received message (only messages that carry this request's response)
+	OtherLinks    []map[cid.Cid]bool   // per received message: links named by the responses to OTHER requests in that message
 	MsgIdx        []int
 	Statuses      []graphsync.ResponseStatusCode
 	Exts          [][]graphsync.ExtensionName
@@ -72,6 +73,13 @@ func ViewOf(raw *fab.Node, from peer.ID, id graphsync.RequestID) RawView {
 				bl[b.Cid()] = b.RawData()
 			}
 			v.Blocks = append(v.Blocks, bl)
+			ol := map[cid.Cid]bool{}
+			for _, other := range rc.Msg.Responses() {
+				if other.RequestID() != id {
+					other.Metadata().Iterate(func(c cid.Cid, a graphsync.LinkAction) { ol[c] = true })
+				}
+			}
+			v.OtherLinks = append(v.OtherLinks, ol)
 			v.MsgIdx = append(v.MsgIdx, mi)
 			v.Statuses = append(v.Statuses, rs.Status())
 			v.Exts = append(v.Exts, rs.ExtensionNames())
